@@ -441,6 +441,17 @@ Proof.
   now rewrite (norm_endpoints_preserved _ _ He).
 Qed.
 
+(* ---------- EntitiesDescriptor scalars ---------- *)
+Theorem group_scalars_roundtrip vu cd :
+  (forall t, vu = Some t -> zero_time <= round_ms t < year10000) ->
+  (forall d, cd = Some d -> in_int64 d) ->
+  norm_opt_instant vu = Ok (option_map round_ms vu) /\ norm_opt_duration cd = Ok cd.
+Proof.
+  intros Hv Hd. split.
+  - destruct vu as [t|]; [|reflexivity]. cbn [norm_opt_instant option_map]. now rewrite norm_instant_ok by (apply Hv; reflexivity).
+  - destruct cd as [d|]; [|reflexivity]. cbn [norm_opt_duration]. now rewrite norm_duration_ok by (apply Hd; reflexivity).
+Qed.
+
 (* ---------- non-vacuity ---------- *)
 Example check_location_examples :
   map (fun p => check_endpoint_location (fst p) (snd p))
